@@ -15,6 +15,7 @@ import ALV.Lemmas.C02Stop
 import ALV.Lemmas.C02Chain
 import ALV.Lemmas.C02Round
 import ALV.Lemmas.C02Two
+import ALV.Lemmas.C02Src
 import ALV.Common.Audit
 
 namespace ALV.Props.C02
@@ -730,6 +731,95 @@ example : twoProbe chainDemand 5 (twoStart 2 5) =
     [(true, 1, 0), (true, 2, 0), (true, 2, 1), (true, 2, 2), (true, 2, 3)] ∧
     twoProbe longestDemand 4 (twoStart 1 3) = [(true, 1, 1), (true, 1, 2), (true, 1, 3), (false, 1, 3)] := by
   decide
+
+
+/-! ## 12. The model REGENERATED from the source is the hand-written model
+
+`ALV.Gen.C02.*` (file `ALV/Gen/C02Src.lean`) is rewritten on every check by `harness/props/c02_tr.py` from the
+source text of `Stream.limit` / `skip` / `take` / `peek`, `zero_pad` and `attack`.  Each theorem below says
+that what the source says NOW is the model function all the theorems above are about; the corollaries
+carry two of them over to the regenerated definitions. -/
+
+/-- `Stream.limit` wraps its data in `it.islice(data, stop)`: the stopping stage `limitX` -/
+theorem src_limit_is_model (N : Nat) : Gen.C02.limit (α := α) N = limitX N := rfl
+
+/-- the `stop` written in the source, `max(int(round(n)), 0)` handed to `islice`, is `roundCount`
+for every spelling of `n` (int / bool / Fraction / float / inf / nan), exceptions included -/
+theorem src_limit_count_is_model : Gen.C02.limit_count.count Gen.C02.limit_sink = roundCount :=
+  funext limit_count_eq
+
+/-- the generator `skipper` of `Stream.skip` (drop loop that returns on StopIteration, then the
+pass-through loop) is `skipS` -/
+theorem src_skip_is_model (n : Nat) : Gen.C02.skip (α := α) n = skipS n := rfl
+
+/-- the turns of its drop loop, `xrange(int(round(n)))`, are `roundCount` -/
+theorem src_skip_count_is_model : Gen.C02.skip_count.count Gen.C02.skip_sink = roundCount :=
+  funext skip_count_eq
+
+/-- the body of `Stream.take` (four statements, run by `TProg.run`) reads what `takeCount` says:
+one item for `take()`, everything for `+inf`, `rint` of a positive float, 0 for negative / nan,
+ValueError for a non-negative Fraction -/
+theorem src_take_is_model : TProg.run Gen.C02.take = takeModel := take_eq
+
+/-- `Stream.peek` hands the same `n` to `take` on a copy -/
+theorem src_peek_is_model : TProg.run Gen.C02.peek = takeModel := peek_eq
+
+/-- `zero_pad`: `left` yields without a read, the pass-through loop, `right` yields after it -/
+theorem src_zero_pad_is_model (left right : Nat) (zero : α) :
+    Gen.C02.zero_pad left right zero = padS (List.replicate left zero) (List.replicate right zero) := rfl
+
+/-- `attack` over an iterable sustain: the two line loops behind ONE read, then one item per
+output — `attackS` with `n = len_a + len_d` -/
+theorem src_attack_is_model (la ld : Nat) (f g : α → Nat → α) :
+    Gen.C02.attack la ld f g = attackS (la + ld) (attackLine la f g) := attack_eq la ld f g
+
+/-- the two loop lengths are `int(a + .5)` of `a` and `int(d + .5)` of `d` handed to `xrange`, and that
+is `durLen` for every finite spelling (OverflowError / ValueError for inf / nan) -/
+theorem src_attack_lens_is_model :
+    Gen.C02.attack_lens = [("len_a", "a", .toInt (.add .arg (.flt (1 / 2))), .xrange),
+                           ("len_d", "d", .toInt (.add .arg (.flt (1 / 2))), .xrange)] ∧
+    (PE.toInt (.add .arg (.flt (1 / 2)))).count .xrange = durCount ∧
+    (∀ v k, durCount v = .ok k → k = durLen v) := by
+  refine ⟨rfl, funext dur_count_eq, ?_⟩
+  intro v k h
+  cases v <;> simp only [durCount, Except.ok.injEq, reduceCtorEq] at h <;> exact h.symm
+
+/-- the defaults in the signatures and what they mean in the model: `take()` / `peek()` have `n = None` — ONE item
+is read —, `zero_pad(seq)` pads nothing: the plain pass-through stage -/
+theorem src_defaults_is_model (zero : α) :
+    Gen.C02.take_defaults = [("n", "None"), ("constructor", "list")] ∧
+    Gen.C02.peek_defaults = Gen.C02.take_defaults ∧
+    Gen.C02.zero_pad_defaults = [("left", 0), ("right", 0)] ∧
+    TProg.run Gen.C02.take none = .ok .one ∧ takeModel none = .ok .one ∧
+    Gen.C02.zero_pad 0 0 zero = padS [] [] := ⟨rfl, rfl, rfl, rfl, rfl, rfl⟩
+
+/-- corollary: the closed form of `limit` holds for the regenerated stage at the regenerated count -/
+theorem src_limit_probe (n : Num) (N : Nat) (xs : List α) (K : Nat)
+    (h : Gen.C02.limit_count.count Gen.C02.limit_sink n = .ok N) :
+    roundCount n = .ok N ∧
+    (Gen.C02.limit N).probe xs K =
+      (List.range K).map (fun k => (decide (k < min N xs.length), min (k + 1) (min N xs.length))) := by
+  rw [src_limit_count_is_model] at h
+  exact ⟨h, by rw [src_limit_is_model]; exact limit_probe N xs K⟩
+
+/-- corollary: the regenerated `attack` reads nothing when built and `needAttack` items for `k` outputs -/
+theorem src_attack_need (la ld : Nat) (f g : α → Nat → α) (xs : List α) (k : Nat)
+    (hlen : needAttack (la + ld) k ≤ xs.length) :
+    (Gen.C02.attack la ld f g).start.nread = 0 ∧
+    (Gen.C02.attack la ld f g).need xs k = some (needAttack (la + ld) k) := by
+  rw [src_attack_is_model]; exact need_attack _ _ xs k hlen
+
+example : (Gen.C02.limit_count.count Gen.C02.limit_sink (.float (5 / 2))).toOption = some 2 ∧
+    (Gen.C02.limit_count.count .islice (.float (-3))).toOption = some 0 ∧
+    (Gen.C02.skip_count.count .xrange (.frac (7 / 2))).toOption = some 4 ∧
+    (TProg.run Gen.C02.take (some (.float (5 / 2)))).toOption = some (.upto 3) ∧
+    (TProg.run Gen.C02.take none).toOption = some .one ∧
+    (TProg.run Gen.C02.peek (some (.inf false))).toOption = some .all ∧
+    (TProg.run Gen.C02.take (some (.frac (1 / 2)))).toOption = none := by decide +kernel
+example : (Gen.C02.attack 2 1 (fun (x : Nat) i => x + i) (fun x i => 10 * x + i)).pulls [7, 8, 9] 5 =
+    [1, 1, 1, 2, 3] ∧ (Gen.C02.zero_pad 2 1 0).pulls [5, 6] 5 = [0, 0, 1, 2, 2] ∧
+    (Gen.C02.skip 2).pulls [1, 2, 3, 4] 2 = [3, 4] := by
+  refine ⟨?_, ?_, ?_⟩ <;> rw [pulls_eq] <;> decide
 
 end ALV.Props.C02
 
